@@ -237,6 +237,11 @@ func (v *Verifier) verifyFunc(key string, splitName, splitCase string, splitCond
 	for _, r := range c.con.Requires {
 		st.assume(c.specBool(env, r.Expr))
 	}
+	for _, r := range c.con.EntryAssume {
+		// state invariants of the surrounding system that this function relies on; not demanded from callers
+		c.assumeNote("state invariant assumed on entry of " + c.key + " (not demanded from callers): " + r.Src)
+		st.assume(c.specBool(env, r.Expr))
+	}
 	if splitCond != nil && pendingSplitCall == "" {
 		st.assume(c.specBool(env, splitCond.Expr))
 	}
@@ -298,6 +303,11 @@ func (v *Verifier) verifyFunc(key string, splitName, splitCase string, splitCond
 			t := c.specBool(envp, e.Expr)
 			c.addObl(&Obligation{Name: fmt.Sprintf("%s/ensures#%s@ret%d", c.key, clauseID(e, i), ri+1), Kind: "ensures",
 				Descr: "postcondition", Pos: c.pos(fd), Hyps: append([]string(nil), rs.pc...), Goal: t, Clause: e.Src})
+		}
+		for i, e := range c.con.AtReturn {
+			t := c.specBool(envp, e.Expr)
+			c.addObl(&Obligation{Name: fmt.Sprintf("%s/at-return#%s@ret%d", c.key, clauseID(e, i), ri+1), Kind: "ensures",
+				Descr: "assertion at return (function scope)", Pos: c.pos(fd), Hyps: append([]string(nil), rs.pc...), Goal: t, Clause: e.Src})
 		}
 		// `iterates`: unless the callback said stop, no element that should have been passed remains
 		if it := c.con.Iter; it != nil && it.Seq.Expr != nil {
@@ -526,7 +536,7 @@ func (c *FnCtx) frameObligations(rs *State, ri int) {
 	}
 	for _, g := range c.V.specs.GVOrder {
 		cur, ok := rs.ghost[g]
-		if !ok || ghostsAllowed[g] {
+		if !ok || ghostsAllowed[g] || c.V.specs.GhostVars[g].Scratch {
 			continue
 		}
 		pre := c.pre.ghost[g]
